@@ -15,6 +15,8 @@ NOT_DECIDED = "nothing schedule-dependent once R1-R5 hold; std::sync::Mutex is t
 TECHNIQUE = "static analysis: mutex guard live-range (lock-region) analysis over MIR + panic-site discharge inside the regions"
 
 RULES = {
+    # what goes into the shared cache does not depend on who asked (the scan protocol: every piece cached as it is)
+    "C16.R8": lambda ctx: svrules.c15_r1_protocol(ctx, "C16.R8"),
     "C16.RG": lambda ctx: __import__("rules.foundations", fromlist=["x"]).no_global_state(ctx, "C16.RG"),
     "C16.R7": lambda ctx: __import__("rules.foundations", fromlist=["x"]).iterator_overrides(ctx, "C16.R7"),
     "C16.R1": svrules.r1_writes_under_lock,
